@@ -542,6 +542,26 @@ def malformed_cases():
     cases.append(("negative rebuilding share (the shares add up to 1)", reb(reb_sectors={"build": 1.5, "manu": -0.5})))
     cases.append(("negative rebuilding factor", reb(factor=-1.0)))
     cases.append(("NaN rebuilding factor", reb(factor=float("nan"))))
+    # the same with an impact small enough for no runtime guard to trip: the run must not go through with negative demand
+    _small = {kk: vv * 1e-3 for kk, vv in corpus.reb_event(tb, cfg)["impact"].items()}
+    cases.append(("negative rebuilding share (the shares add up to 1), small impact", reb(reb_sectors={"build": 1.5, "manu": -0.5}, impact=_small)))
+    cases.append(("negative rebuilding factor, small impact", reb(factor=-1.0, impact=_small)))
+    cases.append(("rebuilding factor zero", reb(factor=0.0, impact=_small)))
+
+    def capital_vector(kind, **opt):
+        def f():
+            K_ = [float(v) for v in corpus.capital_of(tb, cfg)]
+            if opt.get("nan") is not None:
+                K_[opt.pop("nan")] = float("nan")
+            sim = scen.build_sim(corpus.mk_sc(tb, dict(cfg, capital=dict({"kind": kind, "values": K_}, **opt)), [], T=6))
+            quiet_loop(sim)
+            recs = [getattr(sim, r).to_numpy(dtype=float)[: sim.n_temporal_units_simulated] for r in ("production_realised", "production_capacity")]
+            if all(np.isfinite(a).all() for a in recs) or sim.has_crashed:
+                raise ValueError("(harness) the input was handled: finite records or crash flag")
+        return f
+    cases.append(("capital vector given as a Series without a value for one industry", capital_vector("series", drop=1)))
+    cases.append(("capital vector given as a DataFrame without a value for one industry", capital_vector("dataframe", drop=2)))
+    cases.append(("capital vector (array) with a NaN entry", capital_vector("ndarray", nan=0)))
     cases.append(("negative event monetary factor", reb(emf=-10**6)))
     cases.append(("unknown rebuilding sector", reb(reb_sectors={"nosuch": 1.0})))
     cases.append(("rebuilding sectors missing", reb(reb_sectors=None)))
@@ -641,6 +661,8 @@ def event_validators(dr: Driver, res, seed):
         else:
             ev = corpus.arb_event(loss=rng.choice([0.2, 0.9, 1.0]), occ=rng.randint(1, 4), dur=rng.randint(1, 3), tau=rng.choice([1, 3]))
         bad = rng.choice([None, None, "tau0", "neg", "zero", "over", "shares", "shares_close", "dur0", "occ0"])
+        if i % 5 == 4:
+            bad = ["neg_share", "factor0", "factor_neg", "factor_pos"][(i // 5) % 4]      # (drawn apart: the other draws stay as they were)
         tkey = "rebuild_tau" if kind == "rebuild" else "recovery_tau"
         if bad == "tau0":
             ev[tkey] = 0
@@ -654,6 +676,10 @@ def event_validators(dr: Driver, res, seed):
             ev["reb_sectors"] = {"build": 0.6, "manu": 0.3}
         elif bad == "shares_close" and kind == "rebuild":
             ev["reb_sectors"] = {"build": 0.6, "manu": 0.4 + rng.choice([1e-9, 5e-6, 2e-5])}
+        elif bad == "neg_share" and kind == "rebuild":
+            ev["reb_sectors"] = {"build": 1.25, "manu": -0.25}
+        elif bad in ("factor0", "factor_neg", "factor_pos") and kind == "rebuild":
+            ev["factor"] = {"factor0": 0.0, "factor_neg": -0.5, "factor_pos": 0.5}[bad]
         elif bad == "dur0":
             ev["dur"] = 0
         elif bad == "occ0":
@@ -1430,6 +1456,16 @@ def explore_c17(tier, seed):
             if not np.array_equal(part[0][r], part[1][r], equal_nan=True):
                 viol(res, "C17", f"the same partial run gives different records ({r}) depending on what else ran in the process")
                 break
+        # the same run with NaN blocks left in the allocator between the steps (an uninitialised array would pick them up);
+        # one of the scenarios gets a table with structurally missing inputs, where the masked divisions leave cells untouched
+        _sp = copy.deepcopy(scs[0])
+        _t0 = scs[0]["table"]
+        if _t0.get("kind") == "dense" and not _t0.get("labels"):
+            _sp["table"] = scen.gen_table(random.Random(s + 77), m=_t0["m"], n=_t0["n"], k=_t0["k"], kind="sparse", scale=_t0["scale"])
+        for _sc in [_sp] + scs[1:]:
+            res["paired_runs"] += 1
+            for v in paired.poisoned_memory(_sc, None, s, pid="C17"):
+                res["violations"].append({"violation": v, "scenario": _sc})
         # the caller's table object used for a model, edited, and used again
         for v in paired.table_reuse(scs[0], None, s, pid="C17"):
             res["paired_runs"] += 1
